@@ -5,7 +5,7 @@ import logging
 import time
 
 from koreo.constants import ACTIVE_LABEL
-from koreo.result import UnwrappedOutcome, is_unwrapped_ok
+from koreo.result import PermFail, UnwrappedOutcome, is_unwrapped_ok
 from koreo import registry
 
 
@@ -68,7 +68,13 @@ async def prepare_and_cache(
     prepare_started_at = time.monotonic()
     resource = registry.Resource(resource_type=resource_class, name=cache_key)
     registry.register(registerer=resource)
-    preparer_outcome = await preparer(cache_key, copy.deepcopy(spec))
+    try:
+        preparer_outcome = await preparer(cache_key, copy.deepcopy(spec))
+    except RecursionError:
+        preparer_outcome = PermFail(
+            message=f"{resource_class.__qualname__} '{cache_key}' is nested too deeply to prepare.",
+            location=f"prepare:{resource_class.__qualname__}:{cache_key}",
+        )
     prepare_finished_at = time.monotonic()
 
     if is_unwrapped_ok(preparer_outcome):
